@@ -12,7 +12,7 @@
    Repaired in /repo and stated at full strength: deepcopy-foreign-tzinfo-naive, duration-deepcopy-drops-weeks, interval-deepcopy-typeerror. *)
 From Coq Require Import ZArith List Bool String.
 From Coq Require Import Floats.SpecFloat.
-From PV Require Import Lib.PyBase Spec.Cal Spec.Zone Spec.TdFloat Model.Duration Model.Pickle Model.PickleHistory Proofs.ZoneFacts Proofs.C09Facts Proofs.C14Facts Proofs.C14History Proofs.FloatRoundTripC09.
+From PV Require Import Lib.PyBase Spec.Cal Spec.Zone Spec.TdFloat Model.Duration Model.Pickle Model.PickleHistory Proofs.ZoneFacts Proofs.C09Facts Proofs.C14Facts Proofs.C14History Proofs.FloatRoundTripC09 Model.PickleNative Proofs.C14Native.
 Import ListNotations.
 Open Scope Z_scope.
 
@@ -239,6 +239,43 @@ Theorem roundtrip_interval_deepcopy_witness :
      /\ iv_rebuild zdb_paris RDeep iv = Ok iv).
 Proof. exact iv_deep_witness. Qed.
 Print Assumptions roundtrip_interval_deepcopy_witness.
+
+(* ---- Intervals BUILT FROM STANDARD-LIBRARY operands (Model/PickleNative.v: Interval(<datetime>, <datetime>), pendulum.interval, a.diff(<native>);
+   an operand is (is_native, endpoint); __new__ works on the operands as given, __init__ keeps pendulum.instance(operand)).
+   When the conversion keeps the order and the elapsed time of the operands, the value IS the Interval of the converted operands, and copy.copy,
+   copy.deepcopy and (fold 0) pickle return it unchanged. *)
+Theorem roundtrip_interval_native_partial : forall zdb utc s e a s1 e1 iv,
+  ep_instance zdb utc s = Ok s1 -> ep_instance zdb utc e = Ok e1 ->
+  ep_gt zdb (snd s) (snd e) = ep_gt zdb s1 e1 ->
+  ep_elapsed zdb (snd s) (snd e) = ep_elapsed zdb s1 e1 -> ep_elapsed zdb (snd e) (snd s) = ep_elapsed zdb e1 s1 ->
+  interval_new_native zdb utc false s e a = Ok iv ->
+  iv_rebuild zdb RCopy iv = Ok iv /\ (ep_valid s1 -> ep_valid e1 -> iv_rebuild zdb RDeep iv = Ok iv)
+  /\ (forall p, ep_valid s1 -> ep_valid e1 -> ep_fold0 s1 -> ep_fold0 e1 -> iv_rebuild zdb (RPickle p) iv = Ok iv).
+Proof. exact native_exact_roundtrip. Qed.
+Print Assumptions roundtrip_interval_native_partial.
+
+(* the hypotheses are satisfiable: zoneinfo Europe/Paris 2013-03-30T02:30 -> 2013-04-01T02:30 across the spring-forward night is 47 h and copies to itself *)
+Theorem roundtrip_interval_native_example :
+  exists iv, interval_new_native zdb_paris 1 false nat_ok_start nat_ok_end false = Ok iv /\ td_norm (iv_N iv) = (1, 82800, 0)
+    /\ iv_rebuild zdb_paris RCopy iv = Ok iv.
+Proof. exact native_exact_example. Qed.
+Print Assumptions roundtrip_interval_native_example.
+
+(* `b - a` / pre-converted operands: always the Interval of the converted operands *)
+Theorem roundtrip_interval_native_preconverted : forall zdb utc s e a s1 e1 iv,
+  ep_instance zdb utc s = Ok s1 -> ep_instance zdb utc e = Ok e1 -> interval_new_native zdb utc true s e a = Ok iv ->
+  iv_rebuild zdb RCopy iv = Ok iv /\ (ep_valid s1 -> ep_valid e1 -> iv_rebuild zdb RDeep iv = Ok iv).
+Proof. exact native_pre_roundtrip. Qed.
+Print Assumptions roundtrip_interval_native_preconverted.
+
+(* REFUTED without those hypotheses (finding interval-native-skipped-operand): the skipped wall time 2013-03-31T02:30 given as a standard-library
+   datetime: the Interval's value is 23 h, its endpoints are 24 h apart, and copy.copy (like every route) returns the 24 h Interval *)
+Theorem roundtrip_interval_native_refuted :
+  exists iv iv', interval_new_native zdb_paris 1 false nat_skipped_start nat_ok_end false = Ok iv /\ td_norm (iv_N iv) = (0, 82800, 0)
+    /\ iv_rebuild zdb_paris RCopy iv = Ok iv' /\ td_norm (iv_N iv') = (1, 0, 0)
+    /\ iv_obs zdb_paris iv' <> iv_obs zdb_paris iv.
+Proof. exact native_skipped_witness. Qed.
+Print Assumptions roundtrip_interval_native_refuted.
 
 (* ---- copies in a process with a history (Model/PickleHistory.v): the per-offset cache behind pendulum.timezone(<int>) / tz=<number> / instance().
    `hist_run zdb before r v after` = the calls `before`, then the copy of v along route r, then the calls `after`, in one process that starts fresh;
